@@ -117,3 +117,26 @@ MUTANTS += [
     dict(id='c10-max-gen-fewer-default-steps', props=['C10'], file=SG,
          old="    def __init__(self, base_step=2.0, step_ratio=None, num_steps=15,", new="    def __init__(self, base_step=2.0, step_ratio=None, num_steps=9,"),
 ]
+
+MUTANTS += [
+    dict(id='c06-parity5-offset', props=['C06', 'C01'], file=FD,
+         old='        offset = [1, 1, 2, 2, 4, 1, 3][parity]', new='        offset = [1, 1, 2, 2, 4, 3, 3][parity]'),
+    dict(id='c06-c0-parity4', props=['C06', 'C01'], file=FD,
+         old='        c_0 = [1.0, 1.0, 1.0, 2.0, 24.0, 1.0, 6.0][parity]', new='        c_0 = [1.0, 1.0, 1.0, 2.0, 6.0, 1.0, 6.0][parity]'),
+    dict(id='c06-num-terms-off-by-one', props=['C06', 'C01'], file=FD,
+         old='        num_terms = (order + method_order) // step\n', new='        num_terms = (order + method_order) // step + (self.n == 5)\n'),
+    dict(id='c06-richardson-step-complex', props=['C06', 'C01'], file=FD,
+         old='        complex_step = 4 if self._complex_high_order else 2', new='        complex_step = 4 if (self._complex_high_order and self.n != 6) else 2'),
+    dict(id='c06-flip-list', props=['C06', 'C01'], file=FD,
+         old="(self.n % 8 in [3, 4, 5, 6])", new="(self.n % 8 in [3, 4, 5])"),
+    dict(id='c06-central-even-sign', props=['C06', 'C01', 'C05'], file=FD,
+         old="        return (f(x0i + h) + f(x0i - h)) / 2.0 - f_x0i\n\n    @staticmethod\n    def _central(f, f_x0i, x0i, h):",
+         new="        return (f(x0i + h) + f(x0i - h)) / 2.0 - f_x0i * (1 + 1e-13)\n\n    @staticmethod\n    def _central(f, f_x0i, x0i, h):"),
+    dict(id='c06-rule-index-complex', props=['C06', 'C01'], file=FD,
+         old="        rule_index = order // step\n", new="        rule_index = (order // step + 1) if (method == 'complex' and self.n == 9) else order // step\n"),
+    dict(id='c06-method-order-floor', props=['C06'], file=FD,
+         old="        order = max((self.order // step) * step, step)", new="        order = max(((self.order - 1) // step) * step, step)"),
+    dict(id='c06-apply-origin', props=['C06', 'C01'], file=FD,
+         old="        f_diff = convolve(f_del, fd_rule[::-1], axis=0, origin=n_r // 2)",
+         new="        f_diff = convolve(f_del, fd_rule[::-1], axis=0, origin=n_r // 2 - (n_r == 4))"),
+]
